@@ -454,7 +454,7 @@ func (c *compiler) compile(tok *token) []instruction {
 		if targets := tok.Tokens[0].Tokens; len(targets) > 1 && slices.ContainsFunc(targets, func(t *token) bool { return t.Symbol == "index" || t.Symbol == "." }) {
 			// Tuple assignment with index or field targets, in Go's two phases: first the operands of the index
 			// expressions and selectors on the left and the values on the right are evaluated, then the assignments
-			// happen left to right (a[i], i = v, i+1 stores into the OLD a[i]).
+			// happen (a[i], i = v, i+1 stores into the OLD a[i]).
 			slot := func(kind string, i int) reg {
 				return reg(c.Locals.Index(fmt.Sprintf("%v#%v%v", tok.Pos.String(), kind, i)))
 			}
@@ -471,14 +471,14 @@ func (c *compiler) compile(tok *token) []instruction {
 				}
 			}
 			res = append(res, c.compile(tok.Tokens[1])...)
+			// the values stay on the operand stack (so that untyped constants reach their target unconverted) and are
+			// stored from the last target to the first
 			for i := len(targets) - 1; i >= 0; i-- {
-				res = append(res, instruction{Code: codeLocalSet, A: slot("val", i)})
-			}
-			for i, arg := range targets {
+				arg := targets[i]
 				if arg.Text == "_" {
+					res = append(res, instruction{Code: codePop})
 					continue
 				}
-				res = append(res, instruction{Code: codeLocalGet, A: slot("val", i)})
 				switch arg.Symbol {
 				case "index":
 					res = append(res, instruction{Code: codeLocalGet, A: slot("obj", i)})
